@@ -90,6 +90,43 @@ Fixpoint step_codes (before : list op) (ops : list op) (obs : list (Z * Z)) : li
   | _, _ => [9%nat]   (* malformed observation list *)
   end.
 
+(* what the property text demands of one observed step, given the calls that preceded it (newest first) *)
+Definition step_okP (before : list op) (o : op) (ob : Z * Z) : Prop :=
+  let '(oc, aux) := ob in
+  oc <> 2 (* no call parked for ever *) /\ oc <> 3 (* no panic *) /\
+  (is_lifecycle o = true -> oc <> 1) (* Bind/Unbind/Close never wait for another call *) /\
+  match o with
+  | OClose => Z.odd aux = false                       (* nothing written after Close returned *)
+  | OUnbind _ => Z.odd aux = false /\ Z.odd (aux / 2) = false  (* no emission beyond in flight; state released *)
+  | OBind x => last_was_unbind x before = true -> Z.odd aux = false   (* rebind is fresh *)
+  | _ => True
+  end.
+Fixpoint obs_spec (before : list op) (ops : list op) (obs : list (Z * Z)) : Prop :=
+  match ops, obs with
+  | o :: ops', ob :: obs' => step_okP before o ob /\ obs_spec (o :: before) ops' obs'
+  | [], [] => True
+  | _, _ => False
+  end.
+
+Lemma if_nil (b : bool) (x : nat) : (if b then [x] else []) = [] <-> b = false.
+Proof. destruct b; split; intros; auto; discriminate. Qed.
+
+Lemma app_nil_iff (l l' : list nat) : l ++ l' = [] <-> l = [] /\ l' = [].
+Proof. split; [apply app_eq_nil|intros [-> ->]; reflexivity]. Qed.
+
+Lemma step_codes_nil_iff before ops obs : step_codes before ops obs = [] <-> obs_spec before ops obs.
+Proof.
+  revert before obs; induction ops as [|o ops IH]; intros before [|[oc aux] obs]; cbn [step_codes obs_spec].
+  - tauto.
+  - split; [discriminate|tauto].
+  - split; [discriminate|tauto].
+  - unfold step_okP. rewrite !app_nil_iff, !if_nil, IH.
+    destruct (Z.eqb_spec oc 2), (Z.eqb_spec oc 3), (Z.eqb_spec oc 1); cbn [andb];
+      destruct o; cbn [is_lifecycle]; rewrite ?app_nil_iff, ?if_nil;
+      try destruct (Z.odd aux); try destruct (Z.odd (aux / 2)); try destruct (last_was_unbind x before);
+      cbn [andb]; intuition (try congruence; try lia).
+Qed.
+
 Definition case_codes (c : c11_case) : list nat :=
   let '(iid, mask, ops, obs, leak) := c in
   map (fun k => (100 * Z.to_nat iid + k)%nat)
@@ -106,7 +143,7 @@ Definition c11_spec_failures (cases : list c11_case) : list (nat * nat) := spec_
 (* Prop-level reading of the oracle for one case: no failure code <-> every clause of the property
    text holds on the observations *)
 Definition obs_ok (ops : list op) (obs : list (Z * Z)) (leak : Z) : Prop :=
-  step_codes [] (ops ++ [OClose]) obs = [] /\ leak <= 0.
+  obs_spec [] (ops ++ [OClose]) obs /\ leak <= 0.
 
 Lemma case_codes_nil_iff iid mask ops obs leak :
   case_codes (iid, mask, ops, obs, leak) = [] <-> obs_ok ops obs leak.
@@ -117,7 +154,7 @@ Proof.
     { destruct (step_codes [] (ops ++ [OClose]) obs ++ (if 0 <? leak then [7%nat] else [])) as [|a l] eqn:E; auto.
       exfalso. assert (In a (nodup Nat.eq_dec (a :: l))) by (apply nodup_In; left; reflexivity).
       rewrite H in H0. inversion H0. }
-    apply app_eq_nil in E as [E1 E2]. split; auto.
+    apply app_eq_nil in E as [E1 E2]. split; [apply step_codes_nil_iff; auto|].
     destruct (0 <? leak) eqn:L; [discriminate|]. apply Z.ltb_ge in L. exact L.
-  - intros [H1 H2]. rewrite H1. apply Z.ltb_ge in H2. rewrite H2. reflexivity.
+  - intros [H1 H2]. apply step_codes_nil_iff in H1. rewrite H1. apply Z.ltb_ge in H2. rewrite H2. reflexivity.
 Qed.
